@@ -61,6 +61,12 @@ def builtin_table(fac, maxfun=4):
 class Walker:
     def __init__(self):
         self.ev = []
+        self.owners = []      # kinds of the enclosing declarations (structural context of a function: top / class / local)
+
+    def owner(self):
+        if not self.owners:
+            return "top"
+        return "class" if self.owners[-1] == "Class" else "local"
 
     def e(self, **k):
         self.ev.append(k)
@@ -72,24 +78,30 @@ class Walker:
         elif isinstance(n, ast.FieldDeclaration):
             self.e(ev="FieldDecl", name=n.name, t=ser_t(n.field_type), final=bool(n.is_final), override=bool(n.override))
         elif isinstance(n, ast.FunctionDeclaration):
-            self.e(ev="Enter", kind="Fun", name=n.name, tps=ser_tparams(n.type_parameters), t=[])
+            own = self.owner()
+            self.owners.append("Fun")
+            self.e(ev="Enter", kind="Fun", name=n.name, tps=ser_tparams(n.type_parameters), t=[], owner=own)
             for p in n.params:
                 if p.default is not None:
                     self.walk(p.default)
                 self.e(ev="ParamDecl", name=p.name, t=ser_t(p.param_type), vararg=bool(p.vararg), dflt=p.default is not None)
             if n.body is not None:
                 self.walk(n.body)
+            self.owners.pop()
             self.e(ev="Exit", kind="Fun", name=n.name, body=n.body is not None, ret=opt(n.get_type()),
-                   block=isinstance(n.body, ast.Block), sig=ser_fun(n))
+                   block=isinstance(n.body, ast.Block), sig=ser_fun(n), owner=own)
         elif isinstance(n, ast.Lambda):
+            self.owners.append("Lambda")
             self.e(ev="Enter", kind="Lambda", name=n.name, tps=[], t=[])
             for p in n.params:
                 self.e(ev="ParamDecl", name=p.name, t=ser_t(p.param_type), vararg=False, dflt=False)
             if n.body is not None:
                 self.walk(n.body)
+            self.owners.pop()
             self.e(ev="Exit", kind="Lambda", name=n.name, body=True, ret=opt(n.ret_type),
                    block=isinstance(n.body, ast.Block), sig=opt(n.signature))
         elif isinstance(n, ast.ClassDeclaration):
+            self.owners.append("Class")
             self.e(ev="Enter", kind="Class", name=n.name, tps=ser_tparams(n.type_parameters), t=[])
             for s in n.superclasses:
                 for a in (s.args or []):
@@ -99,6 +111,7 @@ class Walker:
                 self.walk(f)
             for f in n.functions:
                 self.walk(f)
+            self.owners.pop()
             self.e(ev="Exit", kind="Class", name=n.name, body=True, ret=[], block=False, sig=[])
         elif isinstance(n, ast.Block):
             self.e(ev="Enter", kind="Block", name="", tps=[], t=[])
